@@ -110,3 +110,13 @@ Example C04_nonvacuous :
   /\ st (final cfg0 w_acceptor h_good) = ST_ACTIVE.
 Proof. exact good_history_in_scope. Qed.
 Print Assumptions C04_nonvacuous.
+
+(* D26 (new): a Logon numbered above the expected number, received by an acceptor in session, is dropped
+   without any effect: no ResendRequest for the gap it reveals *)
+Theorem C04_acceptor_relogon_refuted :
+  exists c w h s m now n,
+    In s (run c w h) /\ s_op s = OIn m now /\ get_int T34 m = inl n
+    /\ st (s_before s) = ST_ACTIVE /\ nin (s_before s) < n /\ validate_integrity c m (s_before s) = VOk
+    /\ s_events s = [] /\ s_after s = s_before s.
+Proof. exact acceptor_relogon_refuted. Qed.
+Print Assumptions C04_acceptor_relogon_refuted.
